@@ -224,7 +224,7 @@ pub fn valid_records(level: usize) -> Vec<TextRec> {
         db8[3] = 0xb8;
         db8[15] = 1;
         let seq = [0, 1, 0, 2, 0, 3, 0, 4, 0, 5, 0, 6, 0, 7, 0, 8];
-        for (s, ip) in [("::", [0u8; 16]), ("::1", one), ("2001:db8::1", db8), ("2001:DB8::1", db8), ("ffff:ffff:ffff:ffff:ffff:ffff:ffff:ffff", [255u8; 16]), ("1:2:3:4:5:6:7:8", seq)] {
+        for (s, ip) in [("::", [0u8; 16]), ("::1", one), ("2001:db8::1", db8), ("2001:DB8::1", db8), ("ffff:ffff:ffff:ffff:ffff:ffff:ffff:ffff", [255u8; 16]), ("1:2:3:4:5:6:7:8", seq), ("0001:0002:0003:0004:0005:0006:0007:0008", seq), ("1::8", [0, 1, 0, 0, 0, 0, 0, 0, 0, 0, 0, 0, 0, 0, 0, 8]), ("1:2:3:4:5:6:7::", [0, 1, 0, 2, 0, 3, 0, 4, 0, 5, 0, 6, 0, 7, 0, 0]), ("::2:3:4:5:6:7:8", [0, 0, 0, 2, 0, 3, 0, 4, 0, 5, 0, 6, 0, 7, 0, 8]), ("::ffff:102:304", [0, 0, 0, 0, 0, 0, 0, 0, 0, 0, 255, 255, 1, 2, 3, 4]), ("fe80::", [0xfe, 0x80, 0, 0, 0, 0, 0, 0, 0, 0, 0, 0, 0, 0, 0, 0]), ("ABCD:EF01::A", [0xab, 0xcd, 0xef, 0x01, 0, 0, 0, 0, 0, 0, 0, 0, 0, 0, 0, 0x0a])] {
             v.push(TextRec { owner: o.clone(), ttl: pick_ttl(), kind: Kind::Aaaa(s, ip) });
         }
         for n in &names {
